@@ -109,9 +109,45 @@ pub fn ticks(site: Site) -> u64 {
     reg(|r| r.ticks.get(&site).copied().unwrap_or(0))
 }
 
+thread_local! {
+    /// Re-entrancy hook: called once, from inside the next `Clone::clone` of an instrumented
+    /// component (i.e. while gecs is in the middle of copying a column). See `with_clone_hook`.
+    static CLONE_HOOK: std::cell::Cell<Option<*mut (dyn FnMut() + 'static)>> = std::cell::Cell::new(None);
+}
+
+/// Runs `f`; the first `Clone::clone` of an instrumented component that happens inside it calls
+/// `hook` (once). This is how "user code that runs in the middle of `World::clone`" is modelled:
+/// a component's `Clone` impl may reach the world being cloned through an `Rc` / thread-local.
+pub fn with_clone_hook<R>(hook: &mut dyn FnMut(), f: impl FnOnce() -> R) -> R {
+    struct Reset;
+    impl Drop for Reset {
+        fn drop(&mut self) {
+            CLONE_HOOK.with(|h| h.set(None));
+        }
+    }
+    // SAFETY: the pointer is only dereferenced while `f` runs (the guard clears it on every exit,
+    // unwinding included), and it is taken out of the cell before the call, so it is never aliased.
+    let p: *mut (dyn FnMut() + '_) = hook;
+    let p: *mut (dyn FnMut() + 'static) = unsafe { std::mem::transmute(p) };
+    CLONE_HOOK.with(|h| h.set(Some(p)));
+    let _g = Reset;
+    f()
+}
+
+#[inline]
+pub fn run_clone_hook() {
+    if let Some(p) = CLONE_HOOK.with(|h| h.take()) {
+        // SAFETY: see `with_clone_hook`
+        unsafe { (*p)() }
+    }
+}
+
 /// Called at every potential injection point. Panics if this is the armed one.
 #[inline]
 pub fn tick(site: Site) {
+    if site == Site::Clone {
+        run_clone_hook();
+    }
     let fire = REG.with(|r| {
         let mut r = r.borrow_mut();
         if r.suspended {
@@ -193,6 +229,7 @@ impl Stamp for Tok {
 }
 impl Clone for Tok {
     fn clone(&self) -> Self {
+        run_clone_hook();
         reg(|r| r.tok_clones += 1);
         Tok(self.0)
     }
@@ -388,6 +425,7 @@ impl Stamp for Ztrk {
 }
 impl Clone for Ztrk {
     fn clone(&self) -> Self {
+        run_clone_hook();
         reg(|r| {
             r.zst_live += 1;
             r.zst_clones += 1;
